@@ -102,6 +102,35 @@ fn main() {
             }
         }
     }
+    // showdowns shared between threads: the collected showdowns of each evaluator are read
+    // (board, players, hands, winner flags, winner_len, probability) by several threads at the
+    // same time through one Arc; every reader must see what the producing thread saw
+    for i in 0..k.min(4) {
+        let shows: Arc<Vec<Showdown>> = Arc::new(c.cfgs[i].evaluator().into_iter().collect());
+        let readers = 4;
+        let barrier = Arc::new(Barrier::new(readers));
+        let mut hs = vec![];
+        for _ in 0..readers {
+            let (sh, b) = (shows.clone(), barrier.clone());
+            let cfg = c.cfgs[i].clone();
+            hs.push(std::thread::spawn(move || {
+                let tr = Translator::new(&cfg);
+                b.wait();
+                fingerprint(&tr, &sh)
+            }));
+        }
+        for (r, h) in hs.into_iter().enumerate() {
+            match h.join() {
+                Ok(g) => {
+                    if g != solo[i] {
+                        let d = g.iter().zip(solo[i].iter()).position(|(a, b)| a != b).unwrap_or(g.len().min(solo[i].len()));
+                        fail("shared-showdown-differs", format!("showdowns of evaluator {} read concurrently by {} threads through one Arc: reader {} sees something different from the single-threaded run at showdown {} of {}", i, readers, r, d, solo[i].len()));
+                    }
+                }
+                Err(_) => fail("thread-panic", "a reader of shared showdowns panicked".into()),
+            }
+        }
+    }
     // hand-over: advance on thread A, send the iterator to thread B.  Thread B has created its own
     // iterator first (same creation ordinal on its thread), advanced it by the same number of
     // steps, and then alternates next() calls between the received iterator and its own one, so
